@@ -8,7 +8,10 @@ func init() {
 		c.Assume("ASCII case mapping: strings.ToLower/EqualFold are modelled by one uninterpreted lower-casing function that is length preserving, idempotent, the identity on strings without upper-case ASCII letters, distributes over concatenation and keeps '.' positions; non-ASCII case folding is outside the claim")
 		c.Assume("P1 for instants")
 		c.Add(&Job{Pkg: utilPkg, Func: "VerifC18Valid", MustCover: []string{"inside the period", "outside the period"}})
-		pool := func(cf *Config) { cf.Bounds["param:c18.pool"] = 1; cf.Bounds["param:c18.entries"], cf.Bounds["param:c18.lead"] = 1, 1 }
+		pool := func(cf *Config) {
+			cf.Bounds["param:c18.pool"] = 1
+			cf.Bounds["param:c18.entries"], cf.Bounds["param:c18.lead"] = 1, 1
+		}
 		c.Add(&Job{Label: "Valid/concrete dates", Pkg: utilPkg, Func: "VerifC18Valid", MustCover: []string{"inside the period", "outside the period"}, Tune: pool})
 		c.Add(&Job{Label: "HasValidTLD/concrete dates,entries=1,labels=2", Pkg: utilPkg, Func: "VerifC18HasValidTLD", MustCover: []string{"label in table", "inside the period", "outside the period", "label not in table"}, Tune: pool})
 		c.Add(&Job{Pkg: utilPkg, Func: "VerifC18TableFacts", MustCover: []string{"table"}})
